@@ -48,6 +48,8 @@ def configs(tier, seed):
                     if tier == "quick" and (ei + si + ki + ci) % 3:
                         continue
                     out.append({"kind": "files", "elems": ei, "shells": si, "K": KS[ki], "ncol": NCOLS[ci]})
+    for fmt in ("nwchem", "gbs"):
+        out.append({"kind": "filehistory", "fmt": fmt, "depth": 4 if tier == "quick" else 5})
     for mi in range(6):
         out.append({"kind": "builder", "mol": mi})
     for cart in (True, False):
@@ -56,6 +58,8 @@ def configs(tier, seed):
 
 
 def cost(cfg):
+    if cfg["kind"] == "filehistory":
+        return 50
     if cfg["kind"] != "files":
         return 1
     return len(ELEMSETS[cfg["elems"]]) * len(SHELLPATS[cfg["shells"]]) * cfg["K"] * cfg["ncol"]
@@ -142,12 +146,65 @@ def evaluate(cfg):
                         check_parse(o, "parse_gbs " + lay, parsers.parse_gbs, W.write_gbs(basis, pre, sep, end),
                                     model, "gbs-pre-%s" % pre)
         return o
+    if cfg["kind"] == "filehistory":
+        return filehistory(o, cfg)
     if cfg["kind"] == "builder":
         return builder(o, cfg)
     return pyscf(o, cfg)
 
 
 # ------------------------------------------------------------------------------------------------
+def filehistory(o, cfg):
+    """All operation sequences up to the depth bound over {write basis A, write basis B, parse, caller edits the
+    last parse result} on ONE path; every parse must return exactly what the file contains at that moment."""
+    from gbasis import parsers
+
+    parser = parsers.parse_nwchem if cfg["fmt"] == "nwchem" else parsers.parse_gbs
+    write = W.write_nwchem if cfg["fmt"] == "nwchem" else W.write_gbs
+    A = abstract_basis({"elems": 1, "shells": 1, "K": 2, "ncol": 2}, "E", "E")
+    B = abstract_basis({"elems": 2, "shells": 2, "K": 1, "ncol": 1}, "D", "plain")
+    texts = {"A": write(A, "header", "comment", True), "B": write(B, "comment2", "none", False)}
+    models = {"A": W.model_columns(A), "B": W.model_columns(B)}
+    ops = ["writeA", "writeB", "parse", "edit"]
+    nseq = 0
+    nparse = 0
+    for depth in range(1, cfg["depth"] + 1):
+        for seq in itertools.product(ops, repeat=depth):
+            if "parse" not in seq or seq[-1] != "parse":
+                continue
+            nseq += 1
+            fd, path = tempfile.mkstemp(suffix="." + cfg["fmt"], prefix="c18h-")
+            os.close(fd)
+            try:
+                cur = "A"
+                with open(path, "w") as f:
+                    f.write(texts[cur])
+                last = None
+                for step, op in enumerate(seq):
+                    if op in ("writeA", "writeB"):
+                        cur = op[-1]
+                        with open(path, "w") as f:
+                            f.write(texts[cur])
+                    elif op == "edit":
+                        if last is not None:
+                            for k in list(last):
+                                last[k].clear()
+                            last["Zz"] = [(0, np.array([1.0]), np.array([[1.0]]))]
+                    else:
+                        last = parser(path)
+                        o.call()
+                        nparse += 1
+                        flat = flatten_parsed(last)
+                        ok = list(flat.keys()) == list(models[cur].keys()) and all(flat[k] == models[cur][k] for k in models[cur])
+                        o.check("parse after history %s returns the current file content" % (list(seq[:step + 1]),), ok,
+                                key="file-history-" + cfg["fmt"], token=("fh", cfg["fmt"], seq[:step + 1]))
+            finally:
+                os.unlink(path)
+    o.notes["bfs_states"] = o.notes.get("bfs_states", 0) + nseq
+    o.notes["bfs_edges"] = o.notes.get("bfs_edges", 0) + nparse
+    return o
+
+
 MOLS = [(["H"],), (["C", "H"],), (["H", "C", "H"],), (["Kr", "He", "He", "Cl"],), (["C", "C", "Cl", "H", "He"],),
         (("He", "H", "He"),)]
 
